@@ -5,7 +5,7 @@
 From Coq Require Import ZArith List Bool Arith Permutation.
 From WH.Model Require Import GenotypeIndex EditDist.
 From WH.Proofs Require Import GenotypeIndexProofs GenotypeIndexProofsCNS GenotypeIndexProofsCode
-  GenotypeIndexProofsW GenotypeIndexProofsTop EditDistProofs EditDistProofsBand.
+  GenotypeIndexProofsW GenotypeIndexProofsTop EditDistProofs EditDistProofsBand EditDistMetric.
 Import ListNotations.
 Close Scope Z_scope.
 
@@ -47,6 +47,37 @@ Theorem C19_banded_contract_iff : forall (l : nat) (maxdiff : Z) (r : nat),
   (((Z.of_nat l <= maxdiff)%Z -> r = l) /\ ((maxdiff < Z.of_nat l)%Z -> (maxdiff < Z.of_nat r)%Z)).
 Proof. exact banded_contract_iff. Qed.
 Print Assumptions C19_banded_contract_iff.
+
+(* The specification itself is the Levenshtein distance and not merely a recursion that looks like it:
+   it is the least cost over all edit scripts (insert / delete cost 1, substitute cost 0 or 1), and it
+   is a metric (symmetric, zero exactly on equal strings, triangle inequality). *)
+Theorem C19_lev_is_min_edit_script :
+  forall (A : Type) (eqb : A -> A -> bool) (s t : list A),
+  ed A eqb s t (lev eqb s t) /\ forall n, ed A eqb s t n -> lev eqb s t <= n.
+Proof. exact lev_is_min_script. Qed.
+Print Assumptions C19_lev_is_min_edit_script.
+
+Theorem C19_lev_symmetric :
+  forall (A : Type) (eqb : A -> A -> bool), (forall a b, reflect (a = b) (eqb a b)) ->
+  forall s t : list A, lev eqb s t = lev eqb t s.
+Proof. exact lev_sym. Qed.
+Print Assumptions C19_lev_symmetric.
+
+Theorem C19_lev_triangle :
+  forall (A : Type) (eqb : A -> A -> bool), (forall a b, reflect (a = b) (eqb a b)) ->
+  forall s t u : list A, lev eqb s u <= lev eqb s t + lev eqb t u.
+Proof. exact lev_triangle. Qed.
+Print Assumptions C19_lev_triangle.
+
+(* ... and the implementation's unbanded result inherits all three laws. *)
+Theorem C19_edit_distance_metric :
+  forall (A : Type) (eqb : A -> A -> bool), (forall a b, reflect (a = b) (eqb a b)) ->
+  forall s t u : list A,
+  edit_distance eqb s t (-1)%Z = edit_distance eqb t s (-1)%Z /\
+  (edit_distance eqb s t (-1)%Z = 0 <-> s = t) /\
+  edit_distance eqb s u (-1)%Z <= edit_distance eqb s t (-1)%Z + edit_distance eqb t u (-1)%Z.
+Proof. exact edit_distance_metric. Qed.
+Print Assumptions C19_edit_distance_metric.
 
 (* non-vacuity: the hypothesis on eqb holds for the byte strings of the implementation (A := Z) *)
 Example C19_eqb_hypothesis : forall a b : Z, reflect (a = b) (Z.eqb a b).
